@@ -48,9 +48,9 @@ def spectral_norm(X_data, X_indptr, X_indices, n_samples,
         norm_vec = norm(vec)
         eigenvalue = vec @ eigenvector
 
-        # norm(X @ X.T @ eigenvector - eigenvalue * eigenvector) <= tol
-        # inequality (5.25) in ref [1] is squared
-        if norm_vec ** 2 - eigenvalue ** 2 <= tol ** 2:
+        # norm(X @ X.T @ eigenvector - eigenvalue * eigenvector) <= tol * eigenvalue
+        # inequality (5.25) in ref [1] is squared, relative to the scale of X
+        if norm_vec ** 2 - eigenvalue ** 2 <= (tol * eigenvalue) ** 2:
             break
 
         eigenvector = vec / norm_vec
